@@ -588,6 +588,31 @@ func genScenario(r *kit.Rand) sCase {
 				tmpl.NodeSel = map[string]string{teamKey: "x"}
 			}
 		}
+		// a PREFERRED zone on a pod whose zone spread / required zone self-affinity must not be judged inside that zone only:
+		// point it at the zone of an existing node (often the one already holding matching bound pods, i.e. at the skew limit)
+		zoneTopo := lo.SomeBy(tmpl.Spread, func(s sSpread) bool { return s.Key == zoneKey && !s.Anyway }) ||
+			lo.SomeBy(tmpl.Aff, func(t sTerm) bool { return t.Key == zoneKey && !t.Preferred })
+		if zoneTopo && len(tmpl.ZoneTerms) == 0 && r.Chance(1, 2) {
+			var zs []string
+			for _, bp := range sc.Bound {
+				if bp.Labels["app"] == app && bp.NS == tmpl.NS {
+					for _, n := range real {
+						if z, ok := n.Labels[zoneKey]; ok && n.Name == bp.Node {
+							zs = append(zs, z)
+						}
+					}
+				}
+			}
+			for _, n := range real {
+				if z, ok := n.Labels[zoneKey]; ok {
+					zs = append(zs, z)
+				}
+			}
+			if len(zs) > 0 {
+				tmpl.PrefZone = []string{kit.Pick(r, zs[:min(len(zs), 2)])}
+				tmpl.CPU = kit.Pick(r, []string{"300m", "900m"}) // small enough for an existing node
+			}
+		}
 		tmpl.Tolerates = r.Chance(1, 3)
 		for i := 0; i < replicas; i++ {
 			p := tmpl
@@ -1083,6 +1108,9 @@ func emitWorld(c *kit.Ctx, sc sCase, results provscheduling.Results, byUID map[t
 		}
 		if len(sp.PrefZone) > 0 {
 			feat["dim:preferred-node-affinity"] = true
+			if lo.SomeBy(sp.Spread, func(s sSpread) bool { return s.Key == zoneKey && !s.Anyway }) || lo.SomeBy(sp.Aff, func(t sTerm) bool { return t.Key == zoneKey && !t.Preferred }) {
+				feat["dim:preferred-zone-on-zone-topology-carrier"] = true
+			}
 		}
 		for _, sprd := range sp.Spread {
 			if sprd.Sel.Nil {
@@ -1279,6 +1307,10 @@ func corpus() []sCase {
 	hostSpread := []sSpread{{Key: hostKey, MaxSkew: 2, Sel: selfSel("b")}}
 	ctSpread := []sSpread{{Key: ctKey, MaxSkew: 2, MinDomains: ptr(int32(3)), Sel: selfSel("c")}}
 	zoneAff := []sTerm{{Key: zoneKey, Sel: selfSel("c")}}
+	threeZoneNodes := lo.Map([]string{"z1", "z2", "z3"}, func(z string, i int) sNode {
+		n := fmt.Sprintf("node-%d", i+1)
+		return sNode{Name: n, Labels: map[string]string{hostKey: n, ctKey: "on-demand", zoneKey: z}}
+	})
 	return []sCase{
 		{Kind: "solve", Workers: 1, Pools: []sPool{{Name: "pool-a", Weight: 10}}, Batch: []sPod{
 			{Name: "b-0", NS: "ns1", Labels: app("b"), CPU: "300m", Spread: hostSpread},
@@ -1321,6 +1353,19 @@ func corpus() []sCase {
 			Nodes: []sNode{{Name: "node-0", Labels: map[string]string{hostKey: "node-0", ctKey: "on-demand", zoneKey: "z1"}}},
 			Bound: []sPod{{Name: "bound-0", NS: "ns1", Labels: app("a"), CPU: "100m", Node: "node-0", Tolerates: true}},
 			Batch: []sPod{{Name: "b-0", NS: "ns1", Labels: app("b"), CPU: "300m", NodeSel: map[string]string{zoneKey: "z1"}, Anti: []sTerm{{Key: zoneKey, Sel: selfSel("a")}}}}},
+		// preferred node affinity must not narrow the domains a constraint is judged over (existing-node path, first attempt):
+		// one matching pod in z1, the new pod PREFERS z1, every zone has a roomy existing node -> it must not become 2/0/0
+		{Kind: "solve", Workers: 1, Pools: []sPool{{Name: "pool-a", Weight: 10}},
+			Nodes: threeZoneNodes,
+			Bound: []sPod{{Name: "bound-0", NS: "ns1", Labels: app("a"), CPU: "100m", Node: "node-1", Tolerates: true}},
+			Batch: []sPod{{Name: "a-0", NS: "ns1", Labels: app("a"), CPU: "300m", PrefZone: []string{"z1"},
+				Spread: []sSpread{{Key: zoneKey, MaxSkew: 1, Sel: selfSel("a")}}}}},
+		// ... and a pod with required zone self-affinity that PREFERS z2 must still follow the matching pod in z1
+		{Kind: "solve", Workers: 1, Pools: []sPool{{Name: "pool-a", Weight: 10}},
+			Nodes: threeZoneNodes,
+			Bound: []sPod{{Name: "bound-0", NS: "ns1", Labels: app("a"), CPU: "100m", Node: "node-1", Tolerates: true}},
+			Batch: []sPod{{Name: "a-0", NS: "ns1", Labels: app("a"), CPU: "300m", PrefZone: []string{"z2"},
+				Aff: []sTerm{{Key: zoneKey, Sel: selfSel("a")}}}}},
 		// a running pod was deleted and re-created under the same name with another required anti-affinity term and cluster
 		// state never saw the delete: the live term (against app=b) must be enforced, the stale one (against app=a) must not
 		{Kind: "solve", Workers: 1, Pools: []sPool{{Name: "pool-a", Weight: 10}},
